@@ -733,6 +733,10 @@ func runEntry(e corpusEntry, sec *vh.Section, verbose bool) {
 		var c nestCase
 		json.Unmarshal(e.Input, &c)
 		runNesting(sec, c, verbose)
+	case "admin":
+		var c adminCase
+		json.Unmarshal(e.Input, &c)
+		runAdmin(sec, []adminCase{c}, verbose)
 	case "nesting-hole":
 		var c holeCase
 		json.Unmarshal(e.Input, &c)
@@ -794,6 +798,7 @@ func main() {
 	sectionEscJSON(rng.Fork("escjson"))
 	sectionPos(rng.Fork("pos"))
 	sectionRobust(rng.Fork("robust"))
+	sectionAdmin(rng.Fork("admin"))
 	sectionE2E(rng.Fork("e2e"))
 	res.Write(args.Out)
 }
